@@ -462,13 +462,22 @@ class process_macro_c:
 
 @contract("cminx.aggregator:DocumentationAggregator.process_cmake_parse_arguments")
 class process_cmake_parse_arguments_c:
-    """marks the definition on top of the open-definition stack, and nothing else (C03)"""
-    props = ["C03"]
+    """marks the definition on top of the open-definition stack, and nothing else (C03; C08: a placeholder of a
+    definition that is not listed is NOT transparent - the call never reaches the enclosing definition)"""
+    props = ["C03", "C08"]
 
     def ensures(self, ctx, docstring):
         return (not (len(self.definition_command_stack) > 0 and self.definition_command_stack[-1].should_document and
                      self.definition_command_stack[-1].documentation is not None) or
                 self.definition_command_stack[-1].documentation.has_kwargs)
+
+    def ensures_nothing_else(self, ctx, docstring):
+        """follows from the frame; stated as a clause so that the native evaluation on real runs checks it too"""
+        return (len(self.definition_command_stack) == len(old.self.definition_command_stack) and
+                forall(0, len(self.definition_command_stack) - 1,
+                       lambda i: self.definition_command_stack[i].documentation is None or
+                       self.definition_command_stack[i].documentation.has_kwargs ==
+                       old.self.definition_command_stack[i].documentation.has_kwargs))
     modifies = ["self.definition_command_stack[-1].documentation.has_kwargs "
                 "if len(self.definition_command_stack) > 0 and self.definition_command_stack[-1].should_document and "
                 "self.definition_command_stack[-1].documentation is not None else None"]
@@ -915,7 +924,7 @@ def all_same(self: "ref:DocumentationAggregator", o: "ref:DocumentationAggregato
 @contract("cminx.aggregator:DocumentationAggregator.enterCommand_invocation")
 class enterCommand_invocation_c:
     """Every command passes here.  Case table taken from the statements of C02 / C03 / C08 / C09."""
-    props = ["C02", "C03", "C08", "C09", "C11"]
+    props = ["C02", "C03", "C04", "C08", "C09", "C11"]
     clause_props = {"cpp_class_documented_flag_off": ["C08"]}
     types = {"params": "list[str]", "param_names": "list[str]"}
     raises = {"CMakeSyntaxException": lambda self, ctx:
